@@ -207,6 +207,24 @@ R8  a map per flight: every species map a per-flight producer hands back (the
     a mutable object built at module level, in a class body, or as a
     parameter default.  What cannot be followed is not reported (the rule
     forbids, it does not guess); floor on the number of maps asked about.
+R9  "works or is refused by name" - no internal error from a value left out:
+    a local that some path leaves at None (`x = None` … `if <switch>: x = f()`)
+    is computed under every configuration under which it is needed.  Needed:
+    an attribute read, a subscript, an iteration, len() or arithmetic on the
+    value - in the function, or in a resolved repository function (method) it
+    is handed to, parameter by parameter along the calls.  A place a fact on
+    whose path tests the value itself (`x is not None`, `if x is None: raise`,
+    an assert) is not one.  Decided with reaching definitions on the CFG
+    (does the None reach the place?) and over the finite domain of the option
+    fields: the facts at the use (along the call chain, parameters bound to
+    the arguments), at the None and at each computing definition are
+    predicates over the options; an assignment of the options that reaches
+    the use, takes the None and none of the computing definitions is an
+    option combination that ends in AttributeError / TypeError on None.
+    A use with a fact on its way that is not about the configuration is not
+    judged (the rule forbids, it does not guess); facts that cannot be read at
+    a computing definition only make it count as taken.  Positive control: an
+    embedded function.
 """
 
 from __future__ import annotations
@@ -4615,6 +4633,169 @@ def rule_writable(ctx):
     ctx.control('C11-R7', got == [True, False], 'embedded producer: a store into a broadcast_to view is seen, a store into its copy is not')
 
 
+# ---------------------------------------------------------------- R9 -----
+def _is_none(e) -> bool:
+    return isinstance(e, ast.Constant) and e.value is None
+
+
+def _needing_uses(prog, fi, name, depth=0, seen=None):
+    """the places in fi (and in the resolved repository functions `name` is handed to, parameter by parameter) where
+    the value of local / parameter `name` must be an object - an attribute read, a subscript, an iteration, len(), an
+    operand of arithmetic: [(chain of (function, node, binding call or None), text)].  A place some fact on whose
+    path tests the value itself (`x is not None`, `if x is None: raise`, an assert on x) is left out."""
+    seen = seen or set()
+    if (fi.file, fi.qualname, name) in seen or depth > 3:
+        return []
+    seen = seen | {(fi.file, fi.qualname, name)}
+    out = []
+    asserted = any(isinstance(s, ast.Assert) and name in names_in(s.test) for s in walk_no_nested(fi.node))
+    if asserted:
+        return []
+    for n in walk_no_nested(fi.node):
+        if not (isinstance(n, ast.Name) and n.id == name and isinstance(n.ctx, ast.Load)):
+            continue
+        p = getattr(n, '_parent', None)
+        what = None
+        if isinstance(p, ast.Attribute) and p.value is n:
+            what = f'`{norm(p)[:40]}`'
+        elif isinstance(p, ast.Subscript) and p.value is n:
+            what = f'`{norm(p)[:40]}`'
+        elif isinstance(p, (ast.For, ast.comprehension)) and p.iter is n:
+            what = f'iteration over `{name}`'
+        elif isinstance(p, ast.BinOp) or isinstance(p, ast.UnaryOp) and not isinstance(p.op, ast.Not):
+            what = f'`{norm(p)[:40]}`'
+        elif isinstance(p, ast.Call) and n in p.args and call_name(p) == 'len':
+            what = f'`{norm(p)[:40]}`'
+        elif isinstance(p, ast.Call) and (n in p.args or any(k.value is n for k in p.keywords)):
+            callee = resolve_call(prog, fi, p)
+            if callee is None or isinstance(callee, ClassInfo) or not hasattr(callee, 'params'):
+                continue
+            for pname in callee.params:
+                if _bound_arg(callee, p, pname) is n:
+                    for chain, w in _needing_uses(prog, callee, pname, depth + 1, seen):
+                        out.append(([(fi, p, p)] + chain, w))
+            continue
+        if what is None:
+            continue
+        st = stmt_of(n)
+        if any(name in names_in(t) for t, _pol in facts_at(fi.node, st if st is not None else n)):
+            continue
+        out.append(([(fi, n, None)], f'{what} at {fi.file.split("/")[-1]}:{n.lineno}'))
+    return out
+
+
+def _chain_premises(table, chain):
+    """(premises, every fact readable?) of a chain of sites: the facts at each site, the parameters of its function
+    replaced by what the site before hands over"""
+    prem, exact, bind = [], True, {}
+    for i, (fi, node, call) in enumerate(chain):
+        st = stmt_of(node) or node
+        atoms = facts_at(fi.node, st)
+        try:
+            got = _bound_premises(table, fi, atoms, bind)
+        except (_Cannot, RecursionError):
+            return [], False
+        if len(got) != len(atoms):
+            exact = False
+        prem += got
+        if call is not None and i + 1 < len(chain):
+            bind = _call_binding(chain[i + 1][0], call, fi, bind)
+            if bind is None:
+                return prem, False
+    return prem, exact
+
+
+def _absent_value_verdicts(prog, table, w, fi):
+    """for every place of fi (or of a function it hands the value to) that needs a local which some path leaves at
+    None: (name, what, site, ok, why)"""
+    defs: dict[str, list] = {}
+    for t, st, how in stores_to(fi.node):
+        if isinstance(t, ast.Name) and isinstance(st, (ast.Assign, ast.AnnAssign)) and st.value is not None \
+                and any(x is t for x in (st.targets if isinstance(st, ast.Assign) else [st.target])):
+            defs.setdefault(t.id, []).append(st)
+    for name, sts in defs.items():
+        nones = [s for s in sts if _is_none(s.value)]
+        others = [s for s in sts if not _is_none(s.value)]
+        if not nones or not others or name in fi.params:
+            continue
+        if len(local_defs_of(fi, name)) != len(sts):
+            continue                # bound in some other way too (loop target, with, unpacking): not followed
+        for chain, what in _needing_uses(prog, fi, name):
+            site = chain[0][1]
+            st = stmt_of(site) or site
+            try:
+                reach, _entry = w.reaching(fi, name, st)
+            except Exception:
+                continue
+            rs = {id(d[0]) for d in reach}
+            rn = [s for s in nones if id(s) in rs]
+            if not rn:
+                yield name, what, site, True, 'no path brings the None to this place'
+                continue
+            usep, exact = _chain_premises(table, chain)
+            if not exact:
+                continue            # a fact on the way that is not about the configuration: not guessed
+            verdict = None
+            for nd in rn:
+                na = facts_at(fi.node, nd)
+                np_ = table.premises(fi, na)
+                if len(np_) != len(na):
+                    continue
+                dps = [table.premises(fi, facts_at(fi.node, d)) for d in others if id(d) in rs]
+                allp = usep + np_ + [q for dp in dps for q in dp]
+                fields = set().union(*[p[2] for p in allp]) if allp else set()
+                try:
+                    for env in table.tab.assignments(fields):
+                        def sat(ps):
+                            return all(bool(table.tab.ev(e, dict(env), {})) == pol for e, pol, _f, _t in ps)
+                        if sat(usep) and sat(np_) and not any(sat(dp) for dp in dps):
+                            verdict = (nd, env)
+                            break
+                except _Cannot:
+                    verdict = None
+                    continue
+                if verdict:
+                    break
+            if verdict is None:
+                yield name, what, site, True, 'every configuration that reaches the use also takes a path that computes the value'
+                continue
+            nd, env = verdict
+            envt = ', '.join(f'{k}={getattr(v, "name", v)}' for k, v in sorted(env.items()))[:160]
+            via = ' -> '.join(c[0].name for c in chain)
+            made = ' | '.join(' and '.join(p[3] for p in table.premises(fi, facts_at(fi.node, d))) or 'always' for d in others)
+            yield name, what, site, False, (
+                f'`{name}` is still the None of line {nd.lineno} when {what} needs it (through {via}): the value is computed only '
+                f'under [{made[:160]}], but the use is reached under [{(" and ".join(p[3] for p in usep) or "every configuration")[:200]}] '
+                f'- e.g. {envt}: a documented option combination ends in an AttributeError / TypeError on None instead of an '
+                'inventory or a refusal by name')
+
+
+def rule_absent_values(ctx, table):
+    """R9: a value that is left out under some configurations is not needed under them."""
+    prog = ctx.prog
+    w = _Writability(prog)
+    fns = [fi for m in prog.src_modules() if m.relpath.startswith('src/AEIC/emissions/') for fi in m.functions.values()]
+    for fi in fns:
+        for name, what, site, ok, why in _absent_value_verdicts(prog, table, w, fi):
+            ctx.ob('C11-R9', fi, f'`{name}` (None unless computed) needed by {what}', ok, why, line=site.lineno)
+    # positive control: an embedded function that computes a value under one switch and needs it under another / the same
+    ctl = ast.parse('def f(a):\n x = None\n if config.emissions.pmvol_enabled:\n  x = a + 1\n'
+                    ' if config.emissions.pmnvol_enabled:\n  return x.shape\n if config.emissions.pmvol_enabled:\n  return x.size\n'
+                    ' if x is not None:\n  return x.ndim\n return 0')
+    for a_ in ast.walk(ctl):
+        for ch in ast.iter_child_nodes(a_):
+            if not isinstance(ch, (ast.expr_context, ast.operator, ast.unaryop, ast.cmpop, ast.boolop)):
+                ch._parent = a_
+    f = ctl.body[0]
+    cm = prog.module(CFGE)
+
+    class _F:
+        node, params, qualname, name, module, cls, file = f, ['a'], 'f', 'f', cm, None, '<control>'
+    got = [ok for _n, _w, _s, ok, _y in sorted(_absent_value_verdicts(prog, table, w, _F), key=lambda r: r[2].lineno)]
+    ctx.control('C11-R9', got == [False, True], 'embedded function: a value computed under one switch and needed under another is '
+                'seen, the same value needed under its own switch or behind `is not None` is not')
+
+
 def run(ctx):
     groups = implication_table(ctx)        # the table object; .groups is the grouping by switch
     rule_lifecycle(ctx, groups)
@@ -4627,5 +4808,6 @@ def run(ctx):
     rule_elements(ctx)
     rule_switches(ctx, groups)
     rule_writable(ctx)
+    rule_absent_values(ctx, groups)
     ctx.assumptions += ['the numeric balance of each configuration is C01; here only absence of internal errors '
                         'and of switched-off species is decided, per site, for every enum member']
